@@ -12,6 +12,7 @@ import (
 	"strconv"
 	"strings"
 	"sync"
+	"sync/atomic"
 	"syscall"
 	"time"
 
@@ -113,13 +114,29 @@ func victimFunc(v string) (func(simcore.Label) bool, error) {
 			return nil, err
 		}
 		return func(l simcore.Label) bool { return l.Site == SCaller && l.A == uint64(n) }, nil
+	case strings.HasPrefix(v, "site:"):
+		// "site:<m>:<v>": one m-th of the automatically inserted hook sites,
+		// selected by hash: whoever arrives at one of those source locations
+		// stays there while anything else can run
+		var m, n uint64
+		if _, err := fmt.Sscanf(v, "site:%d:%d", &m, &n); err != nil || m == 0 {
+			return nil, fmt.Errorf("bad victim %q", v)
+		}
+		return func(l simcore.Label) bool { return l.Site == SAuto && simcore.Mix(l.A^0x5151)%m == n%m }, nil
 	case v == "evalpost":
 		return func(l simcore.Label) bool { return l.Site == SEvalPost }, nil
 	}
 	return nil, fmt.Errorf("unknown victim %q", v)
 }
 
+// hooksOff: set while the scheduler goroutine itself runs library code
+// before the simulation starts (warm-up histories); hooks are no-ops then.
+var hooksOff atomic.Bool
+
 func hookYield(site string, key uint64) {
+	if hooksOff.Load() {
+		return
+	}
 	s, ok := hookSites[site]
 	if !ok {
 		return
